@@ -3,6 +3,7 @@ package v1
 import (
 	"math/big"
 	"net/http"
+	"strconv"
 	"strings"
 
 	"github.com/formancehq/go-libs/v5/pkg/query"
@@ -57,7 +58,12 @@ func mapTransactionToV1(tx ledger.Transaction) any {
 func buildGetTransactionsQuery(r *http.Request) query.Builder {
 	clauses := make([]query.Builder, 0)
 	if after := r.URL.Query().Get("after"); after != "" {
-		clauses = append(clauses, query.Lt("id", after))
+		if id, err := strconv.ParseUint(after, 10, 64); err == nil {
+			clauses = append(clauses, query.Lt("id", id))
+		} else {
+			// not a number: left as it is, the storage layer refuses it as an invalid query
+			clauses = append(clauses, query.Lt("id", after))
+		}
 	}
 
 	// Support both startTime (new) and start_time (deprecated) parameters
